@@ -34,7 +34,14 @@ def shards(tier, seed):
     out += [dict(kind='writer', shard=i, n=n) for i in range(4)]
     out += [dict(kind='wedge', shard=i, n=n) for i in range(3)]
     out.append(dict(kind='wedge-fixed', n=6 if tier == 'quick' else 60))
+    out.append(dict(kind='axial'))
     return out
+
+
+# axis chirality: an exocyclic double bond on a ring with two equivalent arms plus a substituted ring atom opposite to it
+# (4-alkylidene cyclohexanes, 3-alkylidene cyclobutanes, ring-ring linkers).  Written from the chain end and from the ring.
+AXIAL = ['C/C=C1/CC[C@H](C)CC1', 'C[C@H]1CC/C(=C/C)CC1', 'C/C=C1/C[C@H](C)C1', 'C[C@H]1C/C(=C/C)C1', 'CC/C=C1/CC[C@H](O)CC1',
+         'O[C@H]1CC/C(=C/CC)CC1', 'C/C=C1/CC[C@](C)(O)CC1', 'C/C(F)=C1/CC[C@H](C)CC1', 'C[C@H]1CCC(=C2CC[C@@H](C)CC2)CC1']
 
 
 # centres with four heavy substituents (every bond can carry the wedge, every listing order occurs under rebuild)
@@ -47,6 +54,8 @@ def run_shard(shard, tier, seed):
         cases = [c for i, c in enumerate(spellings()) if i % shard['parts'] == shard['part']]
         return direct_run(ID, cases, check_case)
     specs = molgen.mol_specs(max_atoms=12, corpus_w=4, curated_w=4, graph_w=5, literal_w=1, sym_w=2)
+    if shard['kind'] == 'axial':
+        return direct_run(ID, [{'axial': t} for t in AXIAL], check_case)
     if shard['kind'] == 'wedge-fixed':
         cases = [{'wedge': {'k': 'smi', 's': t}, 'layout': lay, 'seed': seed * 1000 + i}
                  for t in WEDGE_FIXED for lay in ('rdkit', 'clean2d') for i in range(shard['n'])]
@@ -239,7 +248,29 @@ def check_wedge(case, rec):
             return
 
 
+def check_axial(case, rec):
+    """the mirror image of an axially chiral molecule (one mark inverted) is never equal to it, and the marks are kept"""
+    from chython import smiles
+    text = case['axial']
+    i = text.index('@')
+    other = text[:i] + ('@' if text[i + 1] != '@' else '') + text[i + 1 + (text[i + 1] == '@'):] if False else None
+    mirror = text.replace('@@', '\0').replace('@', '@@').replace('\0', '@')
+    ok, pair = rec.guard('spelling-read', lambda: (smiles(text), smiles(mirror)))
+    if not ok:
+        return
+    a, b = pair
+    rec.nt(('axial', text))
+    na = sum(x.stereo is not None for _, x in a.atoms()) + sum(x.stereo is not None for *_, x in a.bonds())
+    if not na:
+        rec.fail('axial', f'{text!r}: all marks dropped, read as {str(a)!r} (the axis makes the molecule chiral)', sig='dropped')
+        return
+    if a == b or str(a) == str(b):
+        rec.fail('axial', f'{text!r} and its mirror image {mirror!r} are equal ({str(a)!r})', sig='mirror-equal')
+
+
 def check_case(case, rec):
+    if 'axial' in case:
+        return check_axial(case, rec)
     if 'wedge' in case:
         return check_wedge(case, rec)
     if 'writer' in case:
@@ -518,6 +549,16 @@ def check_spelling(case, rec):
     elif not same:
         rec.fail('spelling-rdkit', f'{text!r} read as {str(m)!r}: a different molecule according to RDKit', sig=case['family'])
         return
+    # the same centre as a later dot-separated component: position in the string must not change the configuration read
+    if '.' not in text and '>' not in text:
+        ok, pair = rec.guard('spelling-read', lambda: (smiles('O.' + text), smiles(text + '.O'), smiles('[Na+].' + text + '.[Cl-]'),
+                                                       smiles('[Na+].[Cl-].' + text)))
+        if ok:
+            rec.count('spellings-as-later-component')
+            if pair[0] != pair[1] or pair[2] != pair[3]:
+                rec.fail('spelling-component', f'{text!r}: read as another stereoisomer when it is not the first dot-separated component '
+                                               f'({str(pair[0])!r} vs {str(pair[1])!r})', sig=case['family'])
+                return
     # the RDKit object of the same text (explicit hydrogens kept as atoms) converted by the bridge must carry the configuration the
     # library reads from the text itself, atom by atom (text order = RDKit atom order)
     try:
